@@ -341,3 +341,272 @@ pub fn record(args: &[String]) {
 	let n = tw.finish();
 	println!("{}", json!({"kind":"summary","events":n}));
 }
+
+/// `yv ind-catalog` — the public fields of every indicator config with their types (from the serialized default config),
+/// NAME and size(): the ground truth Config.tla is instantiated with.
+pub fn catalog(_args: &[String]) {
+	let mut out = Vec::new();
+	for name in NAMES {
+		let c = default_cfg(name);
+		let j = c.to_json();
+		let fields: Vec<Value> = j
+			.as_object()
+			.unwrap()
+			.iter()
+			.map(|(k, v)| {
+				let t = if v.is_object() { "ma" } else if v.is_string() { "source" } else if v.is_boolean() { "bool" } else if v.is_f64() { "float" } else { "int" };
+				json!({"f": k, "t": t})
+			})
+			.collect();
+		out.push(json!({"name": name, "fields": fields, "size": [c.size().0, c.size().1], "cfg_name": c.name(), "default_valid": c.validate()}));
+	}
+	println!("{}", json!(out));
+}
+
+fn expected_json(d: &Value) -> Value {
+	match d["as"].as_str().unwrap() {
+		"int" => json!(d["v"].as_u64().unwrap()),
+		"float" => json!(d["num"].as_f64().unwrap() / d["den"].as_f64().unwrap()),
+		"nan" => Value::Null,
+		"ma" => json!({ d["kind"].as_str().unwrap(): d["n"].as_u64().unwrap() }),
+		"source" => json!(d["v"].as_str().unwrap()),
+		"bool" => json!(d["v"].as_bool().unwrap()),
+		other => panic!("descriptor {other}"),
+	}
+}
+
+fn json_num_eq(a: &Value, b: &Value) -> bool {
+	match (a.as_f64(), b.as_f64()) {
+		(Some(x), Some(y)) => x == y,
+		_ => a == b,
+	}
+}
+
+/// `yv cfg-replay <programs.ndjson>` — Config.tla programs: sequences of set(name, text) with the expected effect
+pub fn cfg_replay(args: &[String]) {
+	let rows = read_lines(&args[0]);
+	let mut out = Sink::new();
+	for r in &rows {
+		let name = r["ind"].as_str().unwrap();
+		let mut c = default_cfg(name);
+		// static and dyn configuration side by side
+		let mut d = c.dyn_cfg();
+		for (si, st) in r["sets"].as_array().unwrap().iter().enumerate() {
+			let before = c.to_json();
+			let field = st["field"].as_str().unwrap();
+			let text = st["text"].as_str().unwrap();
+			let res = catch(|| c.set(field, text.to_string()));
+			let resd = catch(|| d.set(field, text.to_string()));
+			let after = c.to_json();
+			out.checked += 1;
+			let ctx = || json!({"ind": name, "field": field, "text": text, "step": si});
+			match (&res, &resd) {
+				(Err(e), _) | (_, Err(e)) => {
+					out.mismatch(&format!("{name}:set:panic"), json!({"ind": name, "field": field, "text": text, "msg": e}));
+					break;
+				}
+				(Ok(a), Ok(b)) if a.is_ok() != b.is_ok() => {
+					out.mismatch(&format!("{name}:set:dyn-differs"), ctx());
+					break;
+				}
+				_ => {}
+			}
+			let ok = res.unwrap().is_ok();
+			let exp = &st["exp"];
+			if exp["ok"].as_bool().unwrap() {
+				let want = expected_json(exp);
+				let mut expect_cfg = before.clone();
+				expect_cfg[field] = want.clone();
+				let same = after.as_object().unwrap().iter().all(|(k, v)| json_num_eq(v, &expect_cfg[k]));
+				if !ok || !same {
+					out.mismatch(&format!("{name}:set:{field}"), json!({"ind": name, "field": field, "text": text, "expected_value": want,
+						"result": if ok {"Ok"} else {"Err"}, "before": before, "after": after}));
+					break;
+				}
+			} else if ok || after != before {
+				out.mismatch(&format!("{name}:set:{}", if st["known_field"].as_bool().unwrap() { field } else { "unknown-name" }),
+					json!({"ind": name, "field": field, "text": text, "expected": "Err, configuration unchanged", "result": if ok {"Ok"} else {"Err"},
+						"before": before, "after": after}));
+				break;
+			}
+		}
+	}
+	out.summary(json!({"programs": rows.len()}));
+}
+
+enum IH<'x> {
+	Static(Box<dyn InstI>),
+	Dyn(Box<dyn IndicatorInstanceDyn<Candle>>, usize),
+	Fun(Box<dyn FnMut(&'x Candle) -> IndicatorResult + 'x>),
+}
+
+fn rb(v: &[IndicatorResult]) -> Value {
+	json!(v.iter().map(result_bits).collect::<Vec<_>>())
+}
+
+fn run_ind_prog<'x>(cfg: &dyn CfgI, prog: &[Value], cs: &'x [Candle], use_dyn: bool) -> Vec<Value> {
+	let mut hs: Vec<Option<IH<'x>>> = Vec::new();
+	let mut obs = Vec::new();
+	let dcfg = cfg.dyn_cfg();
+	for o in prog {
+		let op = o["op"].as_str().unwrap();
+		let h = o["h"].as_i64().unwrap();
+		let k = o["k"].as_u64().unwrap() as usize;
+		let lo = o["lo"].as_i64().unwrap();
+		let c0 = (lo - 1).max(0) as usize;
+		let r: Result<Value, String> = catch(|| match op {
+			"new" => {
+				hs.push(Some(if use_dyn { IH::Dyn(dcfg.init(&cs[0]).unwrap(), 0) } else { IH::Static(cfg.init(&cs[0]).unwrap()) }));
+				json!([])
+			}
+			"new_fn" => {
+				// init_fn: the boxed closure of the configuration
+				let mut inst = cfg.init(&cs[0]).unwrap();
+				hs.push(Some(IH::Fun(Box::new(move |c: &Candle| inst.next(c)))));
+				json!([])
+			}
+			"new_over" => {
+				let v = if use_dyn { dcfg.over(&cs[..k].to_vec()).unwrap() } else { cfg.over(&cs[..k]).unwrap() };
+				rb(&v)
+			}
+			"next" | "fncall" => {
+				let x = &cs[c0];
+				let y = match hs[h as usize].as_mut().unwrap() {
+					IH::Static(m) => m.next(x),
+					IH::Dyn(m, n) => {
+						*n += 1;
+						m.next(x)
+					}
+					IH::Fun(f) => f(x),
+				};
+				rb(&[y])
+			}
+			"over" => {
+				let s = &cs[c0..c0 + k];
+				let y = match hs[h as usize].as_mut().unwrap() {
+					IH::Static(m) => m.over(s),
+					IH::Dyn(m, n) => {
+						*n += k;
+						m.over(&s.to_vec())
+					}
+					IH::Fun(_) => unreachable!(),
+				};
+				rb(&y)
+			}
+			"clone" | "snapshot" => {
+				let mut return_clone = false;
+				let c = match hs[h as usize].as_ref().unwrap() {
+					IH::Static(m) => {
+						if op == "clone" {
+							IH::Static(m.boxed_clone())
+						} else {
+							let text = m.snapshot();
+							if text.contains("null") {
+								// a NaN in the state (e.g. 0/0 on a constant window): JSON, the carrier, cannot represent it
+								return_clone = true;
+							}
+							let back = if return_clone { m.boxed_clone() } else { cfg.restore_instance(&text).unwrap_or_else(|e| panic!("deserialize: {e}")) };
+							if !return_clone && back.snapshot() != text {
+								panic!("snapshot of the restored instance differs");
+							}
+							IH::Static(back)
+						}
+					}
+					// a dyn instance cannot be cloned: an identically built instance fed the same inputs stands in
+					IH::Dyn(_, n) => {
+						let mut m = dcfg.init(&cs[0]).unwrap();
+						for x in &cs[..*n] {
+							m.next(x);
+						}
+						IH::Dyn(m, *n)
+					}
+					IH::Fun(_) => unreachable!(),
+				};
+				hs.push(Some(c));
+				json!([])
+			}
+			other => panic!("unknown op {other}"),
+		});
+		match r {
+			Ok(v) => obs.push(v),
+			Err(e) => {
+				obs.push(json!({"panic": e}));
+				break;
+			}
+		}
+	}
+	obs
+}
+
+/// `yv ind-api-replay <programs.ndjson> <seed> <mode>` — Api.tla programs on every indicator, static and dyn (C09, C11, C13)
+pub fn api_replay(args: &[String]) {
+	let progs = read_lines(&args[0]);
+	let seed: u64 = arg(args, 1, "seed");
+	let mut out = Sink::new();
+	let mut rng = Rng::new(seed ^ 0xa91);
+	let mut runs = 0u64;
+	for name in NAMES {
+		for variant in 0..2 {
+			let cfg = random_cfg(name, &mut rng, variant == 1);
+			let mut g = Gen::new(rng.u64(), true);
+			let cs: Vec<Candle> = (0..24).map(|_| g.candle()).collect();
+			let Ok(Ok(mut inst)) = catch(|| cfg.init(&cs[0])) else {
+				out.mismatch(&format!("{name}:init:rejected"), json!({"cfg": cfg.to_json()}));
+				continue;
+			};
+			// contract facts of C11 on this configuration
+			out.cmp(&format!("{name}:name:value"), || json!({}), &json!([name, name]), &json!([cfg.name(), inst.name()]));
+			out.cmp(&format!("{name}:size:value"), || json!({}), &json!([cfg.size().0, cfg.size().1]), &json!([inst.size().0, inst.size().1]));
+			out.cmp(&format!("{name}:config:value"), || json!({}), &cfg.to_json(), &inst.cfg_json());
+			let d = cfg.dyn_cfg();
+			out.cmp(&format!("{name}:dyn-contract:value"), || json!({}), &json!([cfg.name(), cfg.size().0, cfg.size().1, cfg.validate()]),
+				&json!([d.name(), d.size().0, d.size().1, d.validate()]));
+			// config serde round trip (C13)
+			match cfg.from_json(&cfg.to_json()) {
+				Ok(c2) => {
+					out.cmp(&format!("{name}:config-serde:value"), || json!({}), &cfg.to_json(), &c2.to_json());
+				}
+				Err(e) => out.mismatch(&format!("{name}:config-serde:err"), json!({"msg": e, "cfg": cfg.to_json()})),
+			}
+			let ys: Vec<Value> = cs.iter().map(|c| result_bits(&inst.next(c))).collect();
+			// every result carries exactly size() values and signals
+			for (i, y) in ys.iter().enumerate() {
+				out.cmp(&format!("{name}:result-shape:value"), || json!({"step": i}), &json!([cfg.size().0, cfg.size().1]), &y["size"]);
+			}
+			// init_fn over the whole stream
+			match catch(|| cfg.init_fn_run(&cs)) {
+				Ok(Ok(v)) => {
+					out.cmp(&format!("{name}:init_fn:value"), || json!({}), &json!(ys), &rb(&v));
+				}
+				other => out.mismatch(&format!("{name}:init_fn:failed"), json!({"res": format!("{:?}", other.is_ok())})),
+			}
+			for (pi, pr) in progs.iter().enumerate() {
+				let prog = pr["prog"].as_array().unwrap();
+				for use_dyn in [false, true] {
+					let obs = run_ind_prog(cfg.as_ref(), prog, &cs, use_dyn);
+					runs += 1;
+					for (oi, o) in prog.iter().enumerate() {
+						let op = o["op"].as_str().unwrap();
+						let act = obs.get(oi).cloned().unwrap_or(json!("not executed"));
+						let exp = match op {
+							"new" | "new_fn" | "clone" | "snapshot" => json!([]),
+							_ => {
+								let lo = o["lo"].as_i64().unwrap();
+								let hi = o["hi"].as_i64().unwrap();
+								if hi < lo { json!([]) } else { json!(ys[(lo - 1) as usize..hi as usize].to_vec()) }
+							}
+						};
+						out.checked += 1;
+						if act != exp {
+							let cls = if act.get("panic").is_some() { "panic" } else { "value" };
+							out.mismatch(&format!("{name}:{op}:{cls}"), json!({"via": if use_dyn {"dyn"} else {"static"}, "cfg": cfg.to_json(), "program": pi,
+								"op_index": oi, "op": o, "expected": exp, "actual": act}));
+							break;
+						}
+					}
+				}
+			}
+		}
+	}
+	out.summary(json!({"programs": progs.len(), "indicators": NAMES.len(), "runs": runs}));
+}
